@@ -1,10 +1,25 @@
 """C02: Lean theorems of Props/C02.lean on the executable model + K2 correspondence (DESIGN.md 6/C02, 12)."""
+import random
+
+import common as C
+import k2
 import k2check
+
+
+def real_limit_streams(tier):
+    """streams against a build WITHOUT the stripe-limit override (kMaxNumLocks = 65536 as shipped)"""
+    rng = random.Random(C.seed() * 104729 + 7)
+    out = [k2.big_stream(rng, 4, 6000 if tier == "quick" else 40000)]
+    if tier != "quick":
+        out.append(k2.big_stream(rng, 0, 40000))
+        out.append(k2.big_stream(rng, 2, 20000))
+    return out
 
 
 def run(tier):
     import k1b
-    return k2check.run("C02", tier, profile="mixed", extra_props=["C02Par"], phases=[k1b.split_phase])
+    return k2check.run("C02", tier, profile="mixed", extra_props=["C02Par"], phases=[k1b.split_phase],
+                       extra_streams=real_limit_streams(tier))
 
 
 def replay(path):
